@@ -148,6 +148,9 @@ LINKS["open2"] = dict(resname=None, atoms={"BB": {"resname": "A"}, "+BB": {}},
                       inter={"bonds": [I(["BB", "+BB"], ["1", "0.39", "3900"])]})
 LINKS["open3"] = dict(resname=None, atoms={"-BB": {}, "BB": {"resname": "B"}, "+BB": {}},
                       inter={"angles": [I(["-BB", "BB", "+BB"], ["2", "115", "15"])]})
+# a replacement whose new value is zero (neutralising the charged side atom of A where it is bonded to the next residue)
+LINKS["repl0"] = dict(resname=None, atoms={"SA": {"resname": "A", "replace": {"charge": 0.0}}, "+BB": {}},
+                      inter={"bonds": [I(["SA", "+BB"], ["1", "0.33", "330"])]})
 # the residue connection comes from [ edges ] only (pairs make no edge), written with the order as an attribute: BB BB {"order": 1}
 LINKS["pair_edge_attr"] = dict(resname=["A", "B", "C", "D"], inter={"pairs": [I(["BB", "+BB"], ["1", "0.15", "0.25"])]},
                                edges=[("BB", "+BB", {})], edge_spelling="attr")
